@@ -46,11 +46,12 @@ def _obj(own: str, members=(), base: str | None = None) -> dict:
 
 def dup_doc(rng, focus: str | None = None) -> dict:
     """one document of the family. `focus`: "keep" biases towards folded BASE classes under keep_model_order,
-    "users" towards many users of a folded definition; None: anything."""
+    "users" towards many users of a folded definition, "reuse" towards definitions with another name and the same
+    body under reuse_model (enums are dropped, objects become subclasses); None: anything."""
     names = rng.shuffle([a + str(d) for a in LETTERS for d in range(1, 10)])
     fresh = iter(names)
     t = next(fresh)
-    form = "object" if focus == "keep" or rng.chance(1, 2) else "enum"
+    form = "object" if focus == "keep" or rng.chance(1, 2 if focus != "reuse" else 3) else "enum"
     defs: dict[str, dict] = {}
     expect: list[list[str]] = []
     helper = None
@@ -72,14 +73,14 @@ def dup_doc(rng, focus: str | None = None) -> dict:
     defs[t] = tbody
     tgroup = [t]
     expect.append(tgroup)
-    reuse = rng.chance(1, 2)
+    reuse = True if focus == "reuse" else rng.chance(1, 2)
     keep = True if focus == "keep" else rng.chance(1, 2)
     # the folded definitions
     hows = ["same-name", "ref-alias", "reuse-twin"]
     sp = rng.shuffle(spellings(t))
     folded: list[tuple[str, str]] = []
-    for _ in range(rng.range(1, 2)):
-        how = rng.choice(hows[:2] if focus == "keep" else hows)
+    for nth in range(rng.range(1, 2)):
+        how = rng.choice(hows[:2] if focus == "keep" else hows[2:] if focus == "reuse" and nth == 0 else hows)
         if how == "same-name":
             key = sp.pop()
             defs[key] = copy.deepcopy(tbody)
@@ -100,7 +101,7 @@ def dup_doc(rng, focus: str | None = None) -> dict:
     users = [next(fresh) for _ in range(n_users)]
     members_of: dict[str, list] = {u: [] for u in users}
     for d in targets:
-        k = rng.range(3, 6) if focus == "users" and d != t else rng.range(0, 6)
+        k = rng.range(3, 6) if focus in ("users", "reuse") and d != t else rng.range(0, 6)
         for i in range(k):
             u = rng.choice(users)
             members_of[u].append((f"f{len(members_of[u])}", "plain" if rng.chance(2, 3) else "array", d))
@@ -296,8 +297,8 @@ def campaign_dups(ck, n_docs: int) -> None:
         for kind in KINDS:
             dups_case(ck, camp, case, kind)
     for i in range(n_docs):
-        case = dup_doc(rng, (None, "keep", "users")[i % 3])
-        for kind in (KINDS if i % 4 == 0 else [KINDS[0], rng.choice(KINDS[1:])] if i % 2 == 0 else [rng.choice(KINDS)]):
+        case = dup_doc(rng, (None, "keep", "users", "reuse")[i % 4])
+        for kind in (KINDS if i % 8 == 1 else [KINDS[0], rng.choice(KINDS[1:])] if i % 2 == 0 else [rng.choice(KINDS)]):
             dups_case(ck, camp, case, kind)
     camp.wall_s = time.time() - t0
 
@@ -307,11 +308,11 @@ def search_dups(ck) -> None:
     camp = ck.campaign("search: folded definitions x users x keep_model_order / reuse_model, end to end")
     rng = ck.rng.fork("search-dups")
     broken = " ".join(sorted({d.campaign for d in ck.disagreements}) + sorted(ck.broken))
-    focus = ["keep", "users", None]
+    focus = ["keep", "users", "reuse"]
     if "sort_models" in broken or "sortModels" in broken:
         focus = ["keep", "keep", None]
     if "repoint" in broken.lower() or "replace_reference" in broken:
-        focus = ["users", "users", None]
+        focus = ["users", "reuse", None]
     for i in range(600):
         case = dup_doc(rng, focus[i % 3])
         for kind in (KINDS[0], KINDS[2]) if i % 2 else (KINDS[0], KINDS[1]):
